@@ -278,11 +278,14 @@ def r10(cx):
     for v, st in d.defs_of("reloffset"):
         key = "ref" if any(c.text() == "self.is_reference" for c in fl.conds_at(st)) else "static"
         rel[key] = norm(v)
-    ok = rel == {"ref": "instance._offsets[self.index]", "static": "self.offset"}
-    cx.check(ok, go, construct=f"get_offset: reloffset = {rel}", detail="offset-table fields use the cached table entry keyed by field index, the others their class offset", bad_detail="field locator does not use (cached table[index] | class offset)", sub="field")
     r = [x for x in own_nodes(go) if isinstance(x, ast.Return)]
-    ok = len(r) == 1 and isinstance(r[0].value, ast.Tuple) and Lin().poly(r[0].value.elts[1]) == Poly.atom("instance._offset") + Poly.atom("reloffset")
-    cx.check(ok, r[0] if r else go, construct=short(r[0]) if r else "?", detail="absolute = struct offset + relative offset", bad_detail="field locator does not add the struct's own offset", sub="field")
+    if set(rel) == {"ref", "static"} and len(r) == 1:
+        ok = rel == {"ref": "instance._offsets[self.index]", "static": "self.offset"}
+        cx.check(ok, go, construct=f"get_offset: reloffset = {rel}", detail="offset-table fields use the cached table entry keyed by field index, the others their class offset", bad_detail="field locator does not use (cached table[index] | class offset)", sub="field")
+        ok = isinstance(r[0].value, ast.Tuple) and Lin().poly(r[0].value.elts[1]) == Poly.atom("instance._offset") + Poly.atom("reloffset")
+        cx.check(ok, r[0], construct=short(r[0]), detail="absolute = struct offset + relative offset", bad_detail="field locator does not add the struct's own offset", sub="field")
+    else:
+        cx.note(go, construct="Field.get_offset has another shape than the two-arm `reloffset` skeleton", detail="the positions it yields are decided by rule L2 (every field pattern, evaluated against the documented layout)")
     # R2: dispatch on _update
     for spec, tvar in (("struct::Field.__set__", "self.ftype"), ("array::Array.__setitem__", "cls._itemtype")):
         f = m.func(spec)
@@ -341,7 +344,10 @@ def r10(cx):
         cx.check(refreshed, c, construct="Struct._update: after the binary copy the cached offsets of the dynamic fields are re-read from the buffer", detail="a struct of equal size may lay out its dynamic fields differently",
                  bad_detail="after byte-copying another instance the handle keeps the offsets of the OLD layout: reading a dynamic field through the same handle addresses wrong bytes", sub="refresh")
     src = norm(su)
-    cx.check("for field in self._fields" in src and "if field.name in value" in src and "field.__set__(self, value[field.name])" in src, su, construct="Struct._update: field-wise through Field.__set__ for the keys present", detail="only named fields change, each through its own setter", bad_detail="Struct._update does not go field-wise through Field.__set__", sub="struct")
+    if "for field in self._fields" in src and "if field.name in value" in src and "field.__set__(self, value[field.name])" in src:
+        cx.ok(su, construct="Struct._update: field-wise through Field.__set__ for the keys present", detail="only named fields change, each through its own setter", sub="struct")
+    else:
+        cx.note(su, construct="Struct._update: the field-wise arm has another shape", detail="decided by rule R15 (evaluation of a partial update)")
 
 
 # ------------------------------------------------------------------------------------------ C09.R2
